@@ -274,6 +274,55 @@ impl W {
         i
     }
 
+    // ------------------------------------------------------------------ shifts
+    pub fn shift_pda(&self, owner: &Pubkey, nonce: &[u8; 32]) -> Pubkey {
+        Pubkey::find_program_address(&[gmsol_store::states::Shift::SEED, self.store.as_ref(), owner.as_ref(), nonce], &self.pid).0
+    }
+
+    /// shift `amount` market tokens of `from` into `to`
+    #[allow(clippy::too_many_arguments)]
+    pub fn create_shift(&self, db: &mut Db, from: &MarketKeys, to: &MarketKeys, owner: Pubkey, nonce: [u8; 32], amount: u64, min_out: u64) -> std::result::Result<(), TxError> {
+        let shift = self.shift_pda(&owner, &nonce);
+        for (o, mint) in [(shift, from.market_token), (shift, to.market_token), (owner, to.market_token)] {
+            self.ensure_ata(db, &o, &mint);
+        }
+        let accounts = gmsol_store::accounts::CreateShift {
+            owner, receiver: owner, store: self.store, from_market: from.market, to_market: to.market, shift, from_market_token: from.market_token, to_market_token: to.market_token,
+            from_market_token_escrow: ata(&shift, &from.market_token), to_market_token_escrow: ata(&shift, &to.market_token), from_market_token_source: ata(&owner, &from.market_token), to_market_token_ata: ata(&owner, &to.market_token),
+            system_program: sys(), token_program: spl_token::ID, associated_token_program: spl_associated_token_account::ID,
+        };
+        let params = gmsol_store::ops::shift::CreateShiftParams { execution_lamports: 5_000_000, from_market_token_amount: amount, min_to_market_token_amount: min_out };
+        process(db, &ix(self.pid, accounts, gmsol_store::instruction::CreateShift { nonce, params }), &[owner])
+    }
+
+    pub fn execute_shift(&self, db: &mut Db, from: &MarketKeys, to: &MarketKeys, owner: Pubkey, nonce: [u8; 32], by: Pubkey, throw: bool) -> std::result::Result<(), TxError> {
+        let shift = self.shift_pda(&owner, &nonce);
+        let accounts = gmsol_store::accounts::ExecuteShift {
+            authority: by, store: self.store, token_map: self.token_map, oracle: self.oracle, from_market: from.market, to_market: to.market, shift, from_market_token: from.market_token, to_market_token: to.market_token,
+            from_market_token_escrow: ata(&shift, &from.market_token), to_market_token_escrow: ata(&shift, &to.market_token), from_market_token_vault: self.vault(&from.market_token),
+            token_program: spl_token::ID, chainlink_program: None, event_authority: self.event_authority, program: self.pid,
+        };
+        let mut i = ix(self.pid, accounts, gmsol_store::instruction::ExecuteShift { execution_lamports: 5_000, throw_on_execution_error: throw });
+        let mut toks: Vec<Pubkey> = vec![from.index, from.long, from.short, to.index, to.long, to.short];
+        toks.sort();
+        toks.dedup();
+        i.accounts.extend(toks.into_iter().map(|t| meta(if t == self.a { self.feed_a } else { self.feed_b }, false, false)));
+        process(db, &i, &[by])
+    }
+
+    pub fn close_shift(&self, db: &mut Db, from: &MarketKeys, to: &MarketKeys, owner: Pubkey, nonce: [u8; 32], by: Pubkey) -> std::result::Result<(), TxError> {
+        let shift = self.shift_pda(&owner, &nonce);
+        for mint in [from.market_token, to.market_token] {
+            self.ensure_ata(db, &owner, &mint);
+        }
+        let accounts = gmsol_store::accounts::CloseShift {
+            executor: by, store: self.store, store_wallet: self.store_wallet, owner, receiver: owner, shift, from_market_token: from.market_token, to_market_token: to.market_token,
+            from_market_token_escrow: ata(&shift, &from.market_token), to_market_token_escrow: ata(&shift, &to.market_token), from_market_token_ata: ata(&owner, &from.market_token), to_market_token_ata: ata(&owner, &to.market_token),
+            system_program: sys(), token_program: spl_token::ID, associated_token_program: spl_associated_token_account::ID, event_authority: self.event_authority, program: self.pid,
+        };
+        process(db, &ix(self.pid, accounts, gmsol_store::instruction::CloseShift { reason: "done".into() }), &[by])
+    }
+
     /// feeds for the tokens of market `m`, in ascending token order (tokens A and B of the base world)
     pub fn feeds_for(&self, m: &MarketKeys) -> Vec<AccountMeta> {
         let mut toks: Vec<Pubkey> = vec![m.index, m.long, m.short];
